@@ -134,7 +134,7 @@ def spec(prop, tier):
             return elem_runs(["F3", "V1", "V3"], ["AE"], tier, 3) + \
                 [r for r in elem_runs(["F3", "V1", "V3"], ["NP"], tier, 4) if r["arena1"] == 1] + \
                 [r for r in elem_runs(["F3", "V1", "V3"], ["NP"], tier, 3) if r["arena1"] == 0] + \
-                elem_runs(["F1", "F4", "V5", "M2", "M3"], ["AE", "NP"], tier, 2)
+                elem_runs(["F1", "F4", "V5", "M1", "M2", "M3"], ["AE", "NP"], tier, 3)
         return elem_runs(["F1", "F3", "F4", "V1", "V3", "V5", "M2", "M3"], ["AE", "NP", "PP"], tier, 4)
     if prop == "C17":
         lists = ["F1", "F3", "V1", "V3"]
